@@ -37,3 +37,11 @@ Proof.
   intro H. unfold hex_of, hex_abs. destruct (n <? 0) eqn:E; [lia|]. cbn [hex_go].
   rewrite Z.mod_small by lia. destruct (n <? 16) eqn:E2; [reflexivity|lia].
 Qed.
+
+Lemma is_string_regex_spec v :
+  (is_string v = true <-> exists s, v = SStr s) /\ is_regex (Some v) = false /\ is_regex None = true.
+Proof.
+  split; [|split; reflexivity]. split.
+  - destruct v; cbn; try discriminate. intros _. eexists. reflexivity.
+  - intros [s ->]. reflexivity.
+Qed.
